@@ -9,6 +9,7 @@ import PMV.Driver.PyCore
 import PMV.Driver.Exports
 import PMV.Driver.Layout
 import PMV.Driver.Resolve
+import PMV.Driver.Freeze
 open PMV
 
 def dispatch (cmd : String) (args : List Sexp) : Option String :=
@@ -33,6 +34,8 @@ def dispatch (cmd : String) (args : List Sexp) : Option String :=
   | "inplace.fn" => Driver.InPlace.fnCmd args
   | "layout.check" => Driver.Layout.check args
   | "resolve.get" => Driver.Resolve.get args
+  | "freeze.locals" => Driver.Freeze.locals args
+  | "freeze.globals" => Driver.Freeze.globals args
   | "hoist.place" => Driver.Rename.hoistPlace args
   | "rename.assign" => Driver.Rename.assignCmd args
   | "ministring" => Driver.Strings.ministring args
